@@ -57,14 +57,36 @@ Record term := mkTerm {
   t_r : nat; t_c : nat;               (* cursor; t_c = t_cols is the pending-wrap position *)
   t_top : nat; t_bot : nat;           (* scroll region [t_top, t_bot) *)
   t_st : pstate;
-  t_err : nat }.
+  t_err : nat;
+  t_attr : N;
+  t_battr : N }.                      (* t_attr: digest of the last SGR sequence (0 = default); t_battr: what erased cells
+                                         take: t_attr if it sets a background or reverse video, else 0 *)
 
 Definition blank_row (cols : nat) : list N := repeat BLANK cols.
 Definition term_new (rows cols : nat) : term :=
-  mkTerm rows cols (repeat (blank_row cols) rows) 0 0 0 rows Ground 0.
+  mkTerm rows cols (repeat (blank_row cols) rows) 0 0 0 rows Ground 0 0%N 0%N.
 
 Definition upd (t : term) cells r c top bot st err : term :=
-  mkTerm (t_rows t) (t_cols t) cells r c top bot st err.
+  mkTerm (t_rows t) (t_cols t) cells r c top bot st err (t_attr t) (t_battr t).
+Definition with_attr (t : term) (a b : N) : term :=
+  mkTerm (t_rows t) (t_cols t) (t_cells t) (t_r t) (t_c t) (t_top t) (t_bot t) Ground (t_err t) a b.
+(* a cell holds  code point + 2^21 * attribute ; the attribute is only compared between an
+   incrementally drawn screen and a fully repainted one, never interpreted *)
+(* does the sequence set a background colour or reverse video?  (erased cells take the background only) *)
+Definition sgr_has_bg (ps : list (option N)) : bool :=
+  existsb (fun p => match p with Some v => (v =? 7)%N || ((40 <=? v)%N && (v <=? 48)%N) | None => false end) ps.
+Definition ATTR_SHIFT : N := 2097152%N.
+Definition mkcell (cp attr : N) : N := (cp + ATTR_SHIFT * attr)%N.
+(* every SGR sequence neatvi writes starts with an empty parameter (= reset), so the attribute is a
+   function of the last sequence alone: a digest of its parameters after the leading resets *)
+Fixpoint drop_reset (ps : list (option N)) : list (option N) :=
+  match ps with
+  | None :: r => drop_reset r
+  | Some 0%N :: r => drop_reset r
+  | _ => ps
+  end.
+Definition sgr_attr (ps : list (option N)) : N :=
+  fold_left (fun a p => ((a * 256 + match p with Some v => v + 1 | None => 1 end) mod 4294967296)%N) (drop_reset ps) 0%N.
 Definition with_st (t : term) st := upd t (t_cells t) (t_r t) (t_c t) (t_top t) (t_bot t) st (t_err t).
 Definition with_err (t : term) := upd t (t_cells t) (t_r t) (t_c t) (t_top t) (t_bot t) Ground (S (t_err t)).
 Definition with_cur (t : term) r c := upd t (t_cells t) r c (t_top t) (t_bot t) Ground (t_err t).
@@ -72,9 +94,9 @@ Definition with_cells (t : term) cells c := upd t cells (t_r t) c (t_top t) (t_b
 
 (* write a character of width w (1 or 2) at column c of a row; halves of double-width characters
    that get overwritten are blanked *)
-Definition put_row (row : list N) (c : nat) (cp : N) (w : nat) : list N :=
+Definition put_row (row : list N) (c : nat) (cp : N) (w : nat) (attr : N) : list N :=
   let row := if (nth c row BLANK =? WCONT)%N then set_nth (c - 1) BLANK row else row in
-  let row := set_nth c cp row in
+  let row := set_nth c (mkcell cp attr) row in
   let row := if w =? 2 then set_nth (S c) WCONT row else row in
   if (nth (c + w) row BLANK =? WCONT)%N then set_nth (c + w) BLANK row else row.
 
@@ -82,11 +104,11 @@ Definition put (t : term) (cp : N) : term :=
   let w := cp_wid cp in
   if w =? 0 then with_st t Ground
   else if t_cols t <? t_c t + w then with_err t          (* neatvi never writes past the right margin *)
-  else with_cells t (set_nth (t_r t) (put_row (nth (t_r t) (t_cells t) []) (t_c t) cp w) (t_cells t)) (t_c t + w).
+  else with_cells t (set_nth (t_r t) (put_row (nth (t_r t) (t_cells t) []) (t_c t) cp w (t_attr t)) (t_cells t)) (t_c t + w).
 
-Definition erase_eol (row : list N) (c cols : nat) : list N :=
+Definition erase_eol (row : list N) (c cols : nat) (attr : N) : list N :=
   let row := if (nth c row BLANK =? WCONT)%N then set_nth (c - 1) BLANK row else row in
-  firstn c row ++ repeat BLANK (cols - c).
+  firstn c row ++ repeat (mkcell BLANK attr) (cols - c).      (* back-colour erase *)
 
 Definition linefeed (t : term) : term :=
   if S (t_r t) =? t_bot t then
@@ -100,12 +122,12 @@ Definition par1 ps i := Nat.max 1 (par ps i 1).     (* a count: missing or 0 mea
 
 Definition csi_final (t : term) (ps : list (option N)) (b : N) : term :=
   let cols := t_cols t in let rows := t_rows t in
-  if (b =? 109)%N then with_st t Ground                                              (* m  SGR *)
+  if (b =? 109)%N then with_attr t (sgr_attr ps) (if sgr_has_bg ps then sgr_attr ps else 0%N)                                    (* m  SGR *)
   else if (b =? 72)%N then                                                            (* H  CUP *)
     with_cur t (Nat.min (par1 ps 0 - 1) (rows - 1)) (Nat.min (par1 ps 1 - 1) (cols - 1))
   else if (b =? 75)%N then                                                            (* K  EL 0 *)
     if par ps 0 0 =? 0 then
-      with_cells t (set_nth (t_r t) (erase_eol (nth (t_r t) (t_cells t) []) (t_c t) cols) (t_cells t)) (t_c t)
+      with_cells t (set_nth (t_r t) (erase_eol (nth (t_r t) (t_cells t) []) (t_c t) cols (t_battr t)) (t_cells t)) (t_c t)
     else with_err t
   else if (b =? 76)%N then                                                            (* L  IL *)
     with_cells t (ins_lines (blank_row cols) (t_top t) (t_bot t) (t_r t) (par1 ps 0) (t_cells t)) 0
@@ -118,6 +140,7 @@ Definition csi_final (t : term) (ps : list (option N)) (b : N) : term :=
     let bot := par ps 1 rows in
     let bot := if bot =? 0 then rows else bot in
     if (S top <? bot) && (bot <=? rows) then upd t (t_cells t) 0 0 top bot Ground (t_err t)
+    else if (S top =? bot) && (bot <=? rows) then with_st t Ground    (* a region needs two lines: ignored, as on a VT/xterm *)
     else with_err t
   else with_err t.
 
